@@ -317,6 +317,7 @@ def enumerate_ops(pool, profile, constructors=True, fresh="X"):
             for l in ls:
                 out.append(["mkv", "V8" + fresh, "Vertex", [l], []])
                 out.append(["mkv", "V8" + fresh, "Vertex", [l, l], []])
+                out.append(["mkv", "V8" + fresh, "Vertex", [l], [], "gen"])
     if profile in ("C02", "C03"):
         for u in us:
             for v in vs:
@@ -327,6 +328,9 @@ def enumerate_ops(pool, profile, constructors=True, fresh="X"):
         if constructors and us:
             out.append(["mkv", "V7" + fresh, "Vertex", [], [us[0], us[0]]])
             out.append(["mkv", "V7" + fresh, "VSub", [], list(us)])
+            for ck in ("tuple", "gen", "iter"):
+                out.append(["mkv", "V7" + fresh, "Vertex", [], list(us) + [us[0]], ck])
+                out.append(["mku", "U7" + fresh, vs[:2] + vs[:1], None, ck])
             out.append(["mku", "U7" + fresh, vs[:2] + vs[:1], None])
             out.append(["mku", "U7" + fresh, list(us), None])
     if profile in ("C19", "C03"):
